@@ -473,6 +473,24 @@ func genC12(g *Gen) {
 			g.Add(c)
 		}
 	}
+	// the same from a handle on (or below) an entry of a list of namespaces
+	for i := 0; i < 4; i++ {
+		init := map[string]interface{}{"l": []interface{}{map[string]interface{}{"k": randScalar(r), "sub": map[string]interface{}{"x": randScalar(r)}}, randScalar(r)}, "b": randScalar(r)}
+		hn, hi, hp := "l", 0, "l.0"
+		if i%2 == 1 {
+			hn, hi, hp = "l.0.sub", -1, "l.0.sub"
+		}
+		ops := []c12Op{
+			{Kind: "setchild-self", Name: "up", Idx: -1, OnH: true, HName: hn, HIdx: hi},
+			{Kind: "set", Name: "l.0.y", Idx: -1, Val: "later"},
+			{Kind: "set", Name: hp + ".up.b", Idx: -1, Val: uint64(9)},
+		}
+		probes := []addrT{{hp + ".up." + hp + ".up", -1}, {hp + ".up.l.0.y", -1}, {hp + ".up.b", -1}, {"b", -1}, {hp + ".up.l.0.k", -1}, {hp + ".up.l", 1}}
+		if c, ok := c12Run(".", init, probes, ops); ok {
+			c.Tags = append(c.Tags, "root-below-list-entry")
+			g.Add(c)
+		}
+	}
 	for i := 0; i < g.N; i++ {
 		sep := "."
 		if r.P(1, 4) {
